@@ -296,6 +296,7 @@ def plan(tier):
             P.append((v["name"], cfg, "bfs", dict(depth=2, budget=60000, variant=v)))
             P.append((v["name"], cfg, "dev", dict(H=12, k=2, core=True, core_names=REWARD_CORE, variant=v)))
         else:
+            P.append((v["name"], cfg, "bfs", dict(depth=1, budget=60000, variant=v)))  # every entry of the action map once
             P.append((v["name"], cfg, "dev", dict(H=9, k=1, core=True, core_names=REWARD_CORE, variant=v)))
     P.append(("data_manipulation", HE.SHIPPED["data_manipulation"], "dev", dict(H=40 if tier == "thorough" else 8, k=1, reset_seed=None,
                                                                              core=True, core_names=REWARD_CORE)))
